@@ -232,7 +232,7 @@ pub fn rand_meta(rng: &mut Rng, level: u8) -> Meta {
     let mut m = Meta::default();
     let p = if level == 0 { 0.25 } else { 0.35 };
     if rng.chance(p) {
-        m.prio = Some(*rng.pick(&[1u32, 5, 15, 20, 99]));
+        m.prio = Some(*rng.pick(&[1u32, 5, 10, 10, 15, 20, 99]));
     }
     if rng.chance(p) {
         m.assoc = Some(*rng.pick(&[Assoc::Left, Assoc::Right, Assoc::Reduce, Assoc::Shift]));
